@@ -9,6 +9,7 @@ from . import instr_gen as ig
 from . import C16 as c16
 from . import C11 as c11
 
+LEAF = ['Leaf_nps']      # translated functions this property's model relies on (Tie/<name>.v)
 RULE = ("charts with 1-4 tracks (incl. tracks whose note lines are out of tick order, note-less tracks, second-player parts with a [Song] Player2 field, tempo anchors) and a twin parsed from the same text; sequences of 6-14 read-only operations: "
         "chart[instrument] for each of the ten instruments, present or absent, notes_per_second in every argument form incl. failing ones (absent instrument, present instrument with absent difficulty, "
         "note-less track, non-positive interval), tick-to-time queries with and without hints (incl. rejected ones), str/repr of the chart and of every event, chart == twin, hash of every "
